@@ -107,7 +107,7 @@ impl MutX for Limit<&'static mut dyn MutX> {
 pub enum WSpec {
     /// initial contents length, spare capacity
     Vec(usize, usize),
-    /// kind (0 inline, 1 inline+offset, 2 shared), initial length, spare
+    /// kind (0 inline, 1 inline+offset, 2 shared, 3 shared+offset+cut capacity), initial length, spare
     BM(usize, usize, usize),
     Slice(usize),
     Uninit(usize),
@@ -177,7 +177,16 @@ pub fn build(s: &WSpec, leaves: &mut Vec<LeafInfo>) -> MX {
         }
         WSpec::BM(k, i, sp) => {
             let init = init_bytes(*i, 2);
-            let m = match k % 3 {
+            let m = match k % 4 {
+                3 => {
+                    // shared, unique, front offset, capacity cut by split_off (reserve can reclaim in place)
+                    let mut m = BytesMut::with_capacity(i + sp + 24);
+                    m.extend_from_slice(&[0; 6]);
+                    m.extend_from_slice(&init);
+                    drop(m.split_to(6));
+                    drop(m.split_off(i + sp));
+                    m
+                }
                 0 => {
                     let mut m = BytesMut::with_capacity(i + sp);
                     m.extend_from_slice(&init);
